@@ -1,4 +1,4 @@
-import OVM.Refine.Inv
+import OVM.Refine.Len
 import OVM.Props.C17
 /-
   C03 — property values stay attached to their entities through every renumbering.
@@ -160,6 +160,34 @@ theorem clear_sizes (k : Kernel) (b : Bool) :
     (k.clear b).props.m = k.props.m := by
   simp only [clear, resizeV, resizeE, resizeF, resizeC, List.mem_map]
   refine ⟨?_, ?_, ?_, ?_, ?_, ?_, trivial⟩ <;> (rintro c ⟨c0, _, rfl⟩; simp [Col.resize])
+
+/-- **every live property has exactly one element per entity slot, after every history**:
+    for every sequence of kernel operations (construction, `set_*`, deletion in all four modes,
+    index swaps, garbage collection, mode and incidence toggles, `clear`) starting from the empty
+    mesh, with any arguments (only `delete_vertex` needs its handle in range), every tracked
+    column of every kind has as many slots as the mesh has entities of that kind -/
+theorem one_slot_per_entity_always (ops : List Op) (hr : HistoryInRange {} ops) :
+    let k := (({} : Kernel).run ops)
+    ColsLen k.props.v k.nV ∧ ColsLen k.props.e k.nE ∧ ColsLen k.props.he k.nHE ∧
+    ColsLen k.props.f k.nF ∧ ColsLen k.props.hf k.nHF ∧ ColsLen k.props.c k.nC := by
+  have h := lenInv_run {} ops lenInv_empty hr
+  exact ⟨h.pv, h.pe, h.phe, h.pf, h.phf, h.pc⟩
+
+/-- the same from any state that has the invariant (e.g. a loaded mesh with properties) -/
+theorem one_slot_per_entity_from (k : Kernel) (hi : LenInv k) (ops : List Op) (hr : HistoryInRange k ops) :
+    LenInv (k.run ops) := lenInv_run k ops hi hr
+
+/-- non-vacuity: a history with a property-bearing state, a fast immediate vertex deletion and a
+    garbage collection satisfies the hypotheses -/
+example :
+    let k0 : Kernel := { nV := 3, vDel := [false, false, false], vBU := false, eBU := false, fBU := false,
+                         edges := [(0, 1)], eDel := [false],
+                         props := { v := [{ key := "t", dflt := 0, vals := [7, 8, 9] }], he := [{ key := "h", dflt := 0, vals := [1, 2] }] } }
+    LenInv k0 ∧ HistoryInRange k0 [.deleteVertex 2, .addVertex, .collectGarbage, .swapVertex 0 1] := by
+  refine ⟨?_, ?_⟩
+  · constructor <;> simp [nE, nF, nC, nHE, nHF, ColsLen]
+  · simp [HistoryInRange, OpInRange]
+    decide
 
 example : (({ key := "x", dflt := 0, vals := [10, 11, 20, 21, 30, 31] } : Col).erase 3 |>.erase 2).vals = [10, 11, 30, 31] ∧
     (({ key := "x", dflt := 7, vals := [1] } : Col).resize 3).vals = [1, 7, 7] := by decide
